@@ -203,6 +203,24 @@ def _compare(ctx, p, rng):
                 s = float(np.median(a[0])) if a[0].size else 0.0
                 _t(ctx, lambda: op(X, s)); _t(ctx, lambda: op(s, X))
                 _t(ctx, lambda: op(X, b[0, 0])); _t(ctx, lambda: op(X, np.float64(s)))
+    # operands of different but broadcastable shapes (a matrix against one of its rows / columns, P directions against a constant
+    # polynomial with one direction): NumPy compares the broadcast elements
+    for (sa, sb) in [((3, 4), (1, 4)), ((3, 4), (4,)), ((3, 2), (3, 1)), ((2, 3), ())]:
+        for mode in ('equal', 'one-different', 'less'):
+            b = gen.series_data(rng, D, P, sb, 'R', 'random', False, 1.0)
+            a = np.empty((D, P) + sa); a[...] = np.broadcast_to(b.reshape((D, P) + (1,) * (len(sa) - len(sb)) + sb), (D, P) + sa)
+            a[1:] = rng.normal(size=a[1:].shape)
+            if mode == 'one-different':
+                a[0].reshape(-1)[-1] += 0.5
+            elif mode == 'less':
+                a[0] -= rng.uniform(0.1, 1.0, size=a[0].shape)
+            X, Y = UTPM(a), UTPM(b)
+            for op in (operator.lt, operator.le, operator.gt, operator.ge, operator.eq):
+                _t(ctx, lambda: op(X, Y)); _t(ctx, lambda: op(Y, X))
+            if P > 1 and mode != 'one-different':
+                Y1 = UTPM(np.ascontiguousarray(b[:, :1]) * 1.0); X1 = UTPM(a.copy()); X1.data[0] = np.broadcast_to(a[0, :1], a[0].shape)
+                for op in (operator.lt, operator.le, operator.gt, operator.ge, operator.eq):
+                    _t(ctx, lambda: op(X1, Y1)); _t(ctx, lambda: op(Y1, X1))
     # comparisons of traced values (Function) delegate to the values they hold
     from algopy import CGraph, Function
     for shape in [(), (3,)]:
